@@ -23,7 +23,7 @@ func PsPackHeader(scr uint64, stuffing int) []byte {
 		uint8(scr>>5),
 		uint8(scr)&0x1f<<3|0x04, // SCR_ext high bits 0
 		0x01,                    // SCR_ext low 7 bits 0 + marker
-		0x00, 0x00, 0x03, // program_mux_rate 0 + two markers
+		0x00, 0x00, 0x03,        // program_mux_rate 0 + two markers
 		0xF8|uint8(stuffing)&7)
 	for i := 0; i < stuffing; i++ {
 		b = append(b, 0xFF)
